@@ -16,6 +16,7 @@ TStep(e) ==
     [] e.a = "Complete" -> EvComplete(e.t)
     [] e.a = "RS"      -> EvRungSizes(e.sz)
     [] e.a = "Crash"   -> EvCrash
+    [] e.a = "Diverge" -> EvDiverge
     [] e.a = "SS"      -> EvSearcherState(e.obs, e.pend)
 TNext == /\ l <= Len(Traces[tid].ev) /\ TStep(Traces[tid].ev[l])
          /\ l' = l + 1 /\ tid' = tid
